@@ -266,10 +266,11 @@ func runC05(c *Ctx) {
 			}
 		}
 		c.Check(ok, "R-PROV", short(wv.fn), "the signature check receives the object's own TBS bytes and signature", w.Pos(fn.Pos()), det)
-		c.Cut(CutSpec{Rule: "R-CUT", Fn: fn, Label: "returns nil only through the signature check", Target: SuccessReturn(0, func(f Fact) bool {
+		sigOK := func(f Fact) bool {
 			cl := callOf(f.X)
 			return f.Op == "nil" && cl != nil && cl.Call.StaticCallee() != nil && strings.Contains(cl.Call.StaticCallee().Name(), "heckSignature")
-		}), MinTargets: -1})
+		}
+		c.Cut(CutSpec{Rule: "R-CUT", Fn: fn, Label: "returns nil only through the signature check", Target: SuccessReturn(0, sigOK), Cut: sigOK, MinTargets: -1})
 	}
 	_ = token.NoPos
 }
